@@ -222,10 +222,17 @@ func (t table) visible(unscoped bool) []cond.Row {
 	var out []cond.Row
 	for _, r := range t {
 		if r.State == live || (unscoped && r.State == marked) {
-			out = append(out, r.Row)
+			out = append(out, r.row())
 		}
 	}
 	return out
+}
+
+// row returns the row as the evaluator sees it (soft-delete pseudo column set).
+func (r trow) row() cond.Row {
+	x := r.Row
+	x.Del = r.State == marked
+	return x
 }
 
 func (t table) isVisible(id int, unscoped bool) bool {
@@ -376,7 +383,7 @@ func (c tcase) String() string {
 
 // ---- generation ---------------------------------------------------------------------------------
 
-var paths = []string{"find", "find", "first", "count", "count-then", "count-then", "firstorinit", "delete-assoc", "pluck", "batches", "rows", "scan", "joins", "joins", "joins", "preload", "preload", "assoc", "assoc", "update", "update", "update", "delete", "delete", "delete"}
+var paths = []string{"find", "find", "first", "count", "count-then", "count-then", "firstorinit", "firstorcreate", "delete-assoc", "pluck", "batches", "rows", "scan", "joins", "joins", "joins", "preload", "preload", "assoc", "assoc", "update", "update", "update", "delete", "delete", "delete"}
 
 func skipClass(cl string) bool { return harness.OpenClass("C08", cl) }
 
@@ -452,7 +459,25 @@ func genCase(rt *rapid.T) tcase {
 	case "joins", "preload", "assoc":
 		c.Children = genTable(x, rt, x.N(7), pids)
 	}
-	cfg := cond.Cfg{NoPK: true, LeadingOr: true, SkipClass: skipClass, OnExcluded: func(cl string) { evid.Excluded(cl) }}
+	switch c.Path {
+	case "count", "pluck", "scan", "update", "delete":
+		if x.Pct(35) {
+			c.PtrModel = true
+			c.Flavour = []string{"pointer", "embedded", "column"}[x.N(3)]
+		}
+	}
+	// conditions may name the soft-delete column itself (typed IS NULL via nil, IS NOT NULL)
+	cond.SoftColName = "deleted_at"
+	if c.Flavour == "column" {
+		cond.SoftColName = "removed_on"
+	}
+	if c.Path == "assoc" {
+		c.Variant = []string{"Children", "Tags", "Parent"}[x.N(3)] + []string{"/find", "/count"}[x.N(2)]
+	}
+	// (not for the many2many association: its join table has a deleted_at of its own,
+	// an unqualified name would be ambiguous)
+	softCol := !strings.HasPrefix(c.Variant, "Tags/")
+	cfg := cond.Cfg{NoPK: true, LeadingOr: true, SoftCol: softCol, SkipClass: skipClass, OnExcluded: func(cl string) { evid.Excluded(cl) }}
 	switch c.Path {
 	case "joins":
 		cfg.Qual = "children"
@@ -472,14 +497,6 @@ func genCase(rt *rapid.T) tcase {
 			c.PK = all[x.N(len(all))]
 		}
 	}
-	switch c.Path {
-	case "count", "pluck", "scan", "update", "delete":
-		c.PtrModel = x.Pct(35)
-		c.Flavour = []string{"pointer", "embedded", "column"}[x.N(3)]
-		if !c.PtrModel {
-			c.Flavour = ""
-		}
-	}
 	// (Unscoped().Session{NewDB} followed by another Session{} / WithContext is not
 	// generated: that call turns the NewDB handle back into a clone of the unscoped
 	// statement and no document says which it should be; the direct use is)
@@ -497,7 +514,7 @@ func genCase(rt *rapid.T) tcase {
 	if x.Pct(25) {
 		c.Cfg = []string{"PrepareStmt", "QueryFields", "NoReturning", "tx"}[x.N(4)]
 		switch c.Path {
-		case "update", "delete":
+		case "update", "delete", "firstorcreate":
 			if c.Cfg == "tx" { // the table is dumped from a second connection around writes
 				c.Cfg = "PrepareStmt"
 			}
@@ -509,7 +526,7 @@ func genCase(rt *rapid.T) tcase {
 		inline(30)
 	case "rows":
 		c.Variant = []string{"rows", "rows", "row"}[x.N(3)]
-	case "firstorinit":
+	case "firstorinit", "firstorcreate":
 		// "each conds must be a struct or map": when nothing is found the equality
 		// conditions are assigned to the destination, so only Where calls with
 		// struct units or maps of scalars are in the documented domain
@@ -588,7 +605,6 @@ func genCase(rt *rapid.T) tcase {
 			}
 		}
 	case "assoc":
-		c.Variant = []string{"Children", "Tags", "Parent"}[x.N(3)] + []string{"/find", "/count"}[x.N(2)]
 		if strings.HasPrefix(c.Variant, "Tags") {
 			c.genTags(x, rt)
 		}
@@ -1063,6 +1079,9 @@ func (w *world) judgeRead(t table, got []int, pred *cond.Node, what string) stri
 		}
 		return ""
 	}
+	if pred.Mentions(cond.SoftCol) {
+		return "" // a condition on the soft-delete column itself tells a row from its twin
+	}
 	// twin symmetry: conditions never mention id, twins carry identical values
 	in := map[int]bool{}
 	for _, id := range got {
@@ -1127,6 +1146,50 @@ func (w *world) run() (string, error) {
 			return "Find failed: " + tx.Error.Error(), nil
 		}
 		return w.judgeRead(w.prim, got, c.pred(), "Find("+c.Variant+")"), nil
+	case "firstorcreate":
+		// found branch: the record found is updated with the Assign values (also a
+		// soft-deleted one selected under Unscoped); otherwise one new row is created
+		before, err := w.primSpec.Dump(w.d.SQL)
+		if err != nil {
+			return "", err
+		}
+		var p Parent
+		tx := w.chain(db).Assign(map[string]interface{}{"mark": 7}).FirstOrCreate(&p)
+		after, err := w.primSpec.Dump(w.d.SQL)
+		if err != nil {
+			return "", err
+		}
+		if tx.Error != nil {
+			return "Assign().FirstOrCreate failed: " + tx.Error.Error(), nil
+		}
+		pred := c.pred()
+		want := cond.Select(w.prim.visible(c.Unscoped), pred)
+		if len(want) > 0 {
+			if p.ID != want[0] {
+				return fmt.Sprintf("FirstOrCreate found id %d, want %d (first of the %s rows satisfying %s)", p.ID, want[0], vis(c.Unscoped), pred), nil
+			}
+			if msg := w.compare(before, after, map[int]int{want[0]: updated}); msg != "" {
+				return fmt.Sprintf("Assign(mark=7).FirstOrCreate found id %d: %s", p.ID, msg), nil
+			}
+			return "", nil
+		}
+		known := map[int]bool{}
+		for _, b := range before {
+			known[b.ID] = true
+		}
+		var kept []cond.Stored
+		created := 0
+		for _, a := range after {
+			if known[a.ID] {
+				kept = append(kept, a)
+			} else {
+				created++
+			}
+		}
+		if created != 1 {
+			return fmt.Sprintf("FirstOrCreate with no %s row satisfying %s created %d rows, want 1 (it returned id %d)", vis(c.Unscoped), pred, created, p.ID), nil
+		}
+		return w.compare(before, kept, nil), nil
 	case "firstorinit":
 		var p Parent
 		tx := w.chain(db).FirstOrInit(&p)
@@ -1428,7 +1491,7 @@ func (w *world) runJoins() (string, error) {
 			return false
 		}
 		if c.Pre != nil {
-			return c.Pre.Pred().Eval(c.Parents.find(pid).Row) == cond.T
+			return c.Pre.Pred().Eval(c.Parents.find(pid).row()) == cond.T
 		}
 		return true
 	}
@@ -1548,7 +1611,7 @@ func (w *world) runPreload() (string, error) {
 					got = append(got, ch.ID)
 				}
 				for _, r := range c.Children {
-					if r.FK == p.ID && c.Children.isVisible(r.ID, c.Unscoped) && (c.Pre == nil || c.Pre.Pred().Eval(r.Row) == cond.T) {
+					if r.FK == p.ID && c.Children.isVisible(r.ID, c.Unscoped) && (c.Pre == nil || c.Pre.Pred().Eval(r.row()) == cond.T) {
 						want = append(want, r.ID)
 					}
 				}
